@@ -19,7 +19,7 @@ tvars == <<tid, l, s>>
 
 Tr == Traces[tid]
 
-CfgOf(c) == [cd |-> c.cdt, wg |-> c.wgt,
+CfgOf(c) == [cd |-> c.cdt, wg |-> c.wgt, obeyset |-> {TRUE, FALSE},
              ws |-> [i \in 1..Len(c.ws) |->
                        [n |-> c.ws[i].n, np |-> c.ws[i].np, G |-> c.ws[i].Gp, W |-> c.ws[i].Wt, sing |-> c.ws[i].sing,
                         resp |-> c.ws[i].resp, auto |-> c.ws[i].auto, prio |-> c.ws[i].prio, ssig |-> c.ws[i].ssig,
